@@ -22,7 +22,7 @@ from . import aggsys, tlc
 from .core import Machinery
 
 PROP = {'misses-new-values', 'not-all-values', 're-emitted-without-new-data', 'value-counted-twice', 'foreign-value',
-        'aligned', 'more-than-M+2-after-flush', 'idle-series-not-released', 'forward', 'forward-altered',
+        'aligned', 'dropped-within-horizon', 'more-than-M+2-after-flush', 'idle-series-not-released', 'forward', 'forward-altered',
         'rule-should-match', 'rule-should-not-match', 'aggregate-name', 'numeric'}
 WHAT = {
   'misses-new-values': 'an emitted aggregate does not include a value received since that interval was last emitted',
@@ -30,6 +30,7 @@ WHAT = {
   're-emitted-without-new-data': 'an interval was re-emitted although no new data arrived for it',
   'value-counted-twice': 'a value was aggregated twice',
   'foreign-value': 'an aggregate includes a value that was not received for that series and interval',
+  'dropped-within-horizon': 'an interval buffer still within the retention horizon (age and newest MAX+2) was dropped: later values for it are aggregated without the earlier ones',
   'aligned': 'an emitted interval start is not a multiple of the rule frequency',
   'more-than-M+2-after-flush': 'more than MAX_AGGREGATION_INTERVALS + 2 intervals are buffered after a flush',
   'idle-series-not-released': 'a series without buffered intervals was not released (still configured / timer running)',
